@@ -316,3 +316,18 @@ def is_dyadic(case):
         if d & (d - 1):
             return False
     return True
+
+
+def avoid_subnull(case, eps=Fraction(1, 2 ** 20)):
+    """Replace probabilities within the library's null tolerance (0 < p <= 1e-8) by `eps`, renormalising on the
+    largest entry: sparse linear distributions drop such entries by design (make_sparse / marginal)."""
+    pmf = [Fraction(p) for p in case['pmf']]
+    small = [i for i, p in enumerate(pmf) if 0 < p <= Fraction(1, 10 ** 8)]
+    if not small:
+        return case
+    big = max(range(len(pmf)), key=lambda i: pmf[i])
+    for i in small:
+        pmf[big] -= eps - pmf[i]
+        pmf[i] = eps
+    case['pmf'] = [str(p) for p in pmf]
+    return case
